@@ -765,6 +765,12 @@ def arith_battery():
         B('eq', B('mul', N(0x100000000, '0x100000000', False), N(0x7fffffff, '0x7fffffff', False)), N(0x7fffffff00000000, '0x7fffffff00000000', False)),
         B('eq', B('mul', big, big), one),
         B('ge', B('shr', U('neg', N(8)), N(1)), U('neg', N(4))),
+        # C11 6.10.1p4 footnote 167: a hexadecimal/octal constant in [2^31, 2^32) is *signed* in #if (all signed types act as intmax_t)
+        B('lt', U('neg', one), N(0xffffffff, '0xffffffff', False)), B('lt', U('neg', one), N(0x80000000, '0x80000000', False)),
+        B('lt', U('neg', one), N(0xffffffff, '037777777777', False)), B('lt', B('sub', N(0xffffffff, '0xffffffff', False), N(0x100000000, '0x100000000', False)), zero),
+        B('lt', ('c', zero, N(0x80000000, '0x80000000', False), U('neg', one)), zero),
+        B('eq', B('mod', U('bnot', zero), N(0xffffffff, '037777777777', False)), U('neg', one)),
+        B('lt', U('neg', one), N(0xffffffff, '0xffffffffu', True)), B('lt', U('neg', one), N(0xffffffff, '0xffffffffL', False)),
         # the region of the known finding: an int-typed intermediate result wider than 32 bits
         B('shl', B('lt', one, N(2)), N(40)), B('shl', U('lnot', zero), N(40)),
         B('eq', B('shl', B('gt', N(2), one), N(32)), N(4294967296)),
@@ -1404,9 +1410,10 @@ def replay(ctx, corr, path):
 MANIFEST = {
     'level_text': 'Lean 4 theorems for ALL line lists, macro tables, condition evaluators, configurations and file systems: the transcription '
                   'of preprocess2\'s conditional arms + cond_incl stack + skip_cond_incl/skip_cond_incl2 computes exactly the evaluation of '
-                  'the C11 6.10.1 grammar tree (same text lines, same final macro table, same diagnostic class: C10_groups); a skipped '
-                  'balanced group leaves macro table, output and stack untouched and the skip returns at the matching #elif/#else/#endif '
-                  '(C10_skipped_no_effect, C10_skip_returns_at_matching); dropped trailing tokens never matter (C10_trailing); '
+                  'the C11 6.10.1 grammar tree, into which every line list parses (same text lines, same final macro table, same diagnostic '
+                  'class: C10_groups, C10_parse_roundtrip); a skipped balanced group leaves macro table, output and stack untouched and the '
+                  'skip returns at the matching #elif/#else/#endif (C10_skipped_no_effect, C10_skip_returns_at_matching, '
+                  'C10_skip_transcription); dropped trailing tokens never matter (C10_trailing); '
                   'include search = documented order -I, system, -idirafter with the quoted form first looking beside the includer, the '
                   'filename cache never changes an answer, #include_next continues after the directory of the current file (C10_search*); '
                   'a file accepted by detect_include_guard, processed while its guard is defined, yields no tokens and no state change, '
